@@ -52,7 +52,7 @@ from gen import F, enc_label, dec_label, LabelTable
 
 warnings.simplefilter("ignore")
 
-POOL = [0, 1, 2, 3, 5, 7, 'a', 'b', 'c', 'x0', ('t', 1), ('t', 2)]
+POOL = [0, 1, 2, 3, 4, 5, 6, 7, 'a', 'b', 'c', 'x0', ('t', 1), ('t', 2)]     # 4, 6: where resolve_label_conflict starts counting
 FRESH = [10, 11, 12, 'n0', 'n1', 'n2', ('t', 3), ('u', 0)]
 VTC = {'SPIN': 'SPIN', 'BINARY': 'BINARY', 'INTEGER': 'INTEGER', 'DISCRETE': 'INTEGER', 'REAL': 'REAL'}
 FIELD_ID = {'f0': 0, 'f1': 1, 'g0': 10, 'g1': 11, 'g2': 12}
@@ -189,7 +189,8 @@ def gen_op(rng, kind=None):
         p = rng.choice(['true', 'false', 'en_le', 'en_le', 'oc_ge', 'val', 'val', 'tag_even', 'extra_le'])
         return {"op": k, "pred": p, "c": str(rng.choice(ENERGIES)), "k": rng.randint(0, 3), "vi": ri(), "x": rng.choice([0, 1, -1, 2])}
     if k == 'relabel':
-        mode = rng.choice(['fresh', 'fresh', 'swap', 'cycle', 'conflict', 'absent', 'partial', 'identity', 'absent_to_existing'])
+        mode = rng.choice(['fresh', 'fresh', 'swap', 'cycle', 'conflict', 'absent', 'partial', 'identity', 'absent_to_existing',
+                           'gen_clash', 'gen_clash'])
         return {"op": k, "mode": mode, "i": [ri(), ri(), ri()], "fresh": [enc_label(x) for x in rng.sample(FRESH, 3)],
                 "inplace": rng.random() < 0.5}
     if k == 'keep':
@@ -216,13 +217,11 @@ def gen_op(rng, kind=None):
     return {"op": k}
 
 
-# The hooks installed by relabel_variables on an unresolved sample set keep the CALLER'S mapping object (no copy): if the
-# caller changes the dict before the future completes, the resolved result follows the changed dict, whereas the same
-# call on a resolved set used the mapping as it was (reported to the lead as finding C14-deferred-mapping-captured;
-# repro: `s = SampleSet.from_future(f); m = {'a': 'x'}; s.relabel_variables(m); m['a'] = 'y'; f.set_result(ss_ab)` ->
-# variables ['y', 'b']).  The stream that does this is switched off until the finding is listed, because it fails on
-# the unchanged tree; a case with "mutate_mapping": true is still honoured when replayed.
-MUTATE_MAPPING_STREAM = False
+# The hooks installed by relabel_variables on an unresolved sample set must use the mapping as it was at call time
+# (/repo commit 0fea62d copies the dict in both not-done branches; before that the caller's dict was captured by
+# reference: `s = SampleSet.from_future(f); m = {'a': 'x'}; s.relabel_variables(m); m['a'] = 'y'; f.set_result(ss_ab)`
+# gave ['y', 'b']).  15% of the defer cases change the caller's dict right after each deferred relabel.
+MUTATE_MAPPING_STREAM = True
 
 
 def gen_case(rng, tier):
@@ -396,6 +395,24 @@ def resolve_relabel(op, labels):
             if labels[k] not in ls:
                 ls.append(labels[k])
         return [(ls[j], ls[(j + 1) % len(ls)]) for j in range(len(ls))]
+    if mode == 'gen_clash':
+        # a swap / cycle (so utilities.resolve_label_conflict has to invent intermediate integer labels, counting up from
+        # 2 * len(mapping)) TOGETHER WITH ordinary entries whose targets are exactly the integers it would pick next
+        ls = []
+        for k in (i[:2] if op["i"][2] % 2 else i):
+            if labels[k] not in ls:
+                ls.append(labels[k])
+        others = [l for l in labels if l not in ls]
+        extra = others[:1 + op["i"][0] % 2]
+        L = len(ls) + len(extra)
+        cands = [x for x in range(2 * L, 2 * L + 5) if x not in labels]
+        if op["i"][1] % 3 == 0:
+            cands = cands[1:] + cands[:1]
+        m = [(ls[j], ls[(j + 1) % len(ls)]) for j in range(len(ls))]
+        m = m + list(zip(extra, cands))
+        if op["i"][2] % 3 == 0 and len(others) > len(extra):
+            m.append((others[len(extra)], others[len(extra)]))      # a self-label: counted by len(mapping), skipped by the loop
+        return m
     if mode == 'conflict':
         a, b = labels[i[0]], labels[i[1]]
         if a == b:
@@ -648,7 +665,18 @@ def run_seq(c):
     feats["kind"] = "seq"
     fail = None
     nontrivial = False
+    ancestors = []       # (sample set, what it showed when an operation returned a NEW sample set from it)
+
+    def ancestors_ok():
+        for a, snap_a in ancestors:
+            if observe(a) != snap_a:
+                return False
+        return True
     for op in c["steps"]:
+        if not ancestors_ok():
+            fail = fail or "a sample set changed through a later operation on a sample set derived from it"
+            feats["ancestor_changed"] = True
+            break
         if op["op"] == 'first':
             try:
                 d = ss.first
@@ -777,12 +805,18 @@ def run_seq(c):
                 if observe(ss) != before:
                     fail = fail or f"receiver changed by non-in-place {op['op']}"
                     feats["receiver_changed"] = op["op"]
+            if new is not ss:
+                ancestors.append((ss, observe(ss)))
+                ancestors[:] = ancestors[-4:]
             ss = new
             post = observe(ss)
         if sort_order is not None and not raised:
             _, kc, a_, b_, c_ = ctx.last_sorted
             steps.append(f"(StepSorted {kc} {a_} {b_} {c_} {clist([cnat(i) for i in sort_order])} {coq_ss(post, T)})")
         steps.append(f"(Step {term} {cbool(raised)} {coq_ss(post, T)})")
+    if not ancestors_ok():
+        fail = fail or "a sample set changed through a later operation on a sample set derived from it"
+        feats["ancestor_changed"] = True
     feats["ops"] = sorted({o["op"] for o in c["steps"]})[:3] if fail else None
     coq = f"(SeqCase {coq_K(T)} {cbool(spec['sort_labels'])} {init} {coq_ss(seen0, T)} {clist(steps)})"
     extra = []
